@@ -596,6 +596,38 @@ func runParent(e Engine, tier string, seed uint64, workers int, budget time.Dura
 		exit = 1
 		violSummaries = append(violSummaries, map[string]any{"class": v.v.Class, "replay": path, "index": v.index})
 	}
+	// Pinned cases of open known findings (known_cases/<engine>/*.json next
+	// to the known-findings file): the KNOWN-FINDING line must not depend on
+	// the random search happening to hit the finding within the budget. A
+	// pinned case that runs clean on this tree is only noted.
+	pinned, _ := filepath.Glob(filepath.Join(filepath.Dir(knownPath), "known_cases", e.Name(), "*.json"))
+	sort.Strings(pinned)
+	for _, pf := range pinned {
+		var rf replayFile
+		if b, err := os.ReadFile(pf); err != nil || json.Unmarshal(b, &rf) != nil {
+			continue
+		}
+		sig := e.Name() + ":" + rf.Violation.Class
+		if reported[sig] || matchKnown(known, sig, rf.Violation) == nil {
+			continue
+		}
+		rc := exec.Command(self, append(append([]string(nil), ExtraWorkerArgs...), "-scratch", scratch, "-replay", pf)...)
+		rc.Env = os.Environ()
+		if WorkerEnv != nil {
+			rc.Env = append(rc.Env, WorkerEnv(0)...)
+		}
+		out, _ := rc.CombinedOutput()
+		_, rest, ok := strings.Cut(string(out), "REPRODUCED: VIOLATION property="+e.Property()+" class="+rf.Violation.Class+"\n")
+		if !ok || strings.Contains(string(out), "NOT REPRODUCED") {
+			fmt.Fprintf(os.Stderr, "batch: the pinned case %s of known finding %q did not re-trigger it on this tree\n", pf, sig)
+			continue
+		}
+		if kf := matchKnown(known, sig, Violation{Class: rf.Violation.Class, Detail: rest}); kf != nil {
+			fmt.Printf("KNOWN-FINDING: property=%s %s [%s] (pinned case) replay=%s\n", e.Property(), kf.Description, kf.Signature, pf)
+			nKnown++
+			reported[sig] = true
+		}
+	}
 	if infra > 0 && exit == 0 {
 		exit = 2
 	}
